@@ -138,7 +138,14 @@ func (f *Frame) check(kind, what string, reach, cond *Term, p token.Pos) {
 	if f.inl != "" {
 		name += "@" + f.inl
 	}
-	f.ctx.addOblig(kind, name, Implies(reach, cond), f.pos(p))
+	o := f.ctx.addOblig(kind, name, Implies(reach, cond), f.pos(p))
+	o.Reach, o.Cond = reach, cond
+	if cond.Op == "false" {
+		// a goal that could not even be formed (an existential without a witness evaluates to false in goal
+		// position): the obligation fails, but assuming `false` would kill the path and make everything
+		// behind it vacuously true - nothing is assumed (callers that need the fact assume its positive form)
+		return
+	}
 	f.ctx.assume(Implies(reach, cond))
 }
 
